@@ -83,13 +83,13 @@ PROPS = {
  },
  "C09": {
   "module": "Zog.Props.C09",
-  "theorems": COMMON + [P + "C09." + t for t in ["visit_order_is_permutation", "visit_order_same_length", "visit_order_mem", "engine_is_spec_for_every_order", "single_field_order_independent", "C09_partial_spec", "C09_partial", "success_order_independent", "success_order_independent_all", "full_statement_false"]] + ["Zog.Spec.proc_success_order_indep", "Zog.Spec.fieldLoop_perm_clean"],
+  "theorems": COMMON + [P + "C09." + t for t in ["visit_order_is_permutation", "visit_order_same_length", "visit_order_mem", "engine_is_spec_for_every_order", "single_field_order_independent", "C09_partial_spec", "C09_partial", "success_order_independent", "success_order_independent_all", "full_statement_false", "message_independent_of_param_order"]] + ["Zog.Spec.proc_success_order_indep", "Zog.Spec.fieldLoop_perm_clean"],
   "streams": [st("order", 2500, 60000), eng(2000, 60000)],
   "trusted_base": ENGINE_TB, "assumptions": ENGINE_ASSUME,
  },
  "C12": {
   "module": "Zog.Props.C12",
-  "theorems": COMMON + [P + "C12." + t for t in ["tests_run_once_in_order", "posts_in_order_stop_at_first_error", "post_error_one_issue", "plain_error_issue_at_node_path", "posts_gated_on_no_issue", "posts_run_when_clean", "post_error_not_caught", "custom_called_with_value", "custom_mismatch_no_call", "pre_mismatch_skips", "pre_error_skips", "pre_ok_runs_inner", "pre_validate", "engine_log_is_spec_log", "callbacks_see_their_own_path", "exec_ctx_resets_values", "ctx_get_exactly_passed", "ctx_get_absent_key", "ctx_without_reset_leaks"]] + ["Zog.Spec.proc_ev", "Zog.CtxVals.get_exactly_passed"],
+  "theorems": COMMON + [P + "C12." + t for t in ["tests_run_once_in_order", "posts_in_order_stop_at_first_error", "post_error_one_issue", "plain_error_issue_at_node_path", "posts_gated_on_no_issue", "posts_run_when_clean", "post_error_not_caught", "custom_called_with_value", "custom_mismatch_no_call", "pre_mismatch_skips", "pre_error_skips", "pre_ok_runs_inner", "pre_validate", "engine_log_is_spec_log", "callbacks_see_their_own_path", "exec_ctx_resets_values", "ctx_get_exactly_passed", "ctx_get_absent_key", "ctx_last_value_wins", "ctx_other_key_untouched", "ctx_without_reset_leaks"]] + ["Zog.Spec.proc_ev", "Zog.CtxVals.get_exactly_passed"],
   "streams": [eng(3000, 150000), eng(2000, 100000, "catch"), eng(2000, 100000, "pre"), eng(1500, 60000, "api")],
   "trusted_base": ENGINE_TB, "assumptions": ENGINE_ASSUME,
  },
@@ -144,7 +144,7 @@ PROPS = {
  },
  "C10": {
   "module": "Zog.Props.C10",
-  "theorems": [P + "C10." + t for t in ["get_append", "inv_add", "issue_map_well_formed", "root_key", "nonroot_key", "render_is_joinSpec", "key_source_tag_first", "tagName_plain", "key_source_tag_without_name", "key_zog_tag_next", "key_schema_key_last", "key_validate", "issue_path_override", "sanitize_keys", "sanitize_list_length", "sanitize_get", "issues_addressed_at_every_depth", "node_files_below_itself"]] + ["Zog.Spec.proc_at"],
+  "theorems": [P + "C10." + t for t in ["get_append", "inv_add", "issue_map_well_formed", "root_key", "nonroot_key", "render_is_joinSpec", "key_source_tag_first", "tagName_plain", "tagName_no_comma", "tagName_idem", "key_source_tag_without_name", "key_zog_tag_next", "key_schema_key_last", "key_validate", "issue_path_override", "sanitize_keys", "sanitize_list_length", "sanitize_get", "issues_addressed_at_every_depth", "node_files_below_itself"]] + ["Zog.Spec.proc_at"],
   "streams": [st("path", 3000, 200000), eng(2500, 100000), eng(1200, 60000, "deep"), eng(300, 6000, "long"), st("front", 400, 10000)],
   "trusted_base": ["modelled, not verified: lean/Zog/Path.lean mirrors internals/PathBuilder.go String and internals/Issues.go ErrsMap.Add; keyFor mirrors internals/DataProviders.go GetKeyFromField"] + ENGINE_TB,
   "assumptions": ["no issue is addressed to the reserved key `$first` (IssuePath(\"$first\") is outside the property)"] + ENGINE_ASSUME,
